@@ -324,3 +324,14 @@ Proof.
   rewrite Ho, Hn in F. simpl in F.
   destruct (gen_listed (p_owner p) (p_name p)); [reflexivity | discriminate].
 Qed.
+
+(* every standard object that ES5 makes an instance of a kind has a behavioural probe *)
+Lemma kind_cover_b :
+  forallb (fun o => existsb (fun pr => String.eqb (pr_id pr) ("kind:" ++ o)) kind_probes) kind_required = true.
+Proof. vm_compute. reflexivity. Qed.
+
+Lemma kind_cover : forall o, In o kind_required -> exists pr, In pr kind_probes /\ pr_id pr = "kind:" ++ o.
+Proof.
+  intros o Ho. pose proof kind_cover_b as H. rewrite forallb_forall in H. specialize (H o Ho).
+  apply existsb_exists in H. destruct H as (pr & Hin & Heq). apply String.eqb_eq in Heq. eauto.
+Qed.
